@@ -147,6 +147,8 @@ def run(tier, seed):
         if not p.panic:
             pr.holds("Covariance.merge[both].inv_cauchy_schwarz", fm, p.pc, inv(p.state["self"]), cls={"case": "both"})
     obs = pr.obs
+    import envelope
+    obs += envelope.guard_covariance("C09")
     obs += vl.run_lemmas("C09", ["lemma_fold", "merge_tree", "concat", "swap"])
     meta = {
         "level": "proof",
@@ -161,13 +163,17 @@ def run(tier, seed):
                         "x/y symmetry: rep(state, summary) and every accessor contract are symmetric under exchanging the coordinates, so swapping the roles of x and y swaps the x/y statistics and fixes covariance and pearson (consequence of the proved contracts, not a separate obligation)",
                         "|pearson| <= 1 uses Cxy^2 <= Cxx*Cyy, proved here as an inductive invariant of add and merge (inv_cauchy_schwarz)",
                         "collect/extend glue is C20's subject; every chunking/bracketing by the Verus merge-tree lemma over the pair-sum monoid",
-                        "the forward-error envelope is not decided (A-REAL)"],
+                        "the forward-error envelope is not decided (A-REAL); a BOUNDED known-answer corpus (envelope_guard: independent offsets up to 1e12 on x and y) exercises it"],
         "explanation": "rep(state, (n,Sx,Sy,Sxx,Syy,Sxy)) preserved by add and merge for arbitrary symbolic summaries; accessors against the textbook statistics.",
     }
     return obs, meta, confirm
 
 
 def confirm(ob):
+    import envelope
+    r = envelope.confirm_from_cex(ob)
+    if r:
+        return r
     import replay, oracle
     from fractions import Fraction as Fr
     import math
